@@ -160,32 +160,11 @@ Definition fetch_item (raw : str) (rows : list row) (s : section) (part : option
       end
   end.
 
-(** ---- the writer of a leaf body: writePartContentWithS3 ---- *)
-
-Definition is_base64 (enc : str) : bool := equal_fold (trim_space enc) (S_ "base64").
-
-(** re-wrap at 76 *)
-Fixpoint wrap76 (fuel : nat) (s : str) : str :=
-  match fuel with
-  | O => []
-  | S f => match s with
-           | [] => []
-           | _ => firstn 76 s ++ crlf ++ wrap76 f (skipn 76 s)
-           end
-  end.
-
-Definition already_wrapped (content : str) : bool :=
-  let lines := split content crlf in
-  if length lines <=? 1 then false
-  else forallb (fun l => negb (78 <? length l)) lines.
-
-Definition written_content (enc content : str) : str :=
-  let content :=
-    if is_base64 enc && negb (already_wrapped content)
-    then let raw := filter (fun c => negb (Ascii.eqb c CR) && negb (Ascii.eqb c LF)) content in
-         wrap76 (S (length raw)) raw
-    else content in
-  if has_suffix content crlf then content else content ++ crlf.
+(** ---- the writer of a leaf body: writePartContentWithS3 ----
+    The stored content is written as it is, followed by the CRLF that belongs
+    to the next boundary delimiter (always; no re-wrapping of base64 text):
+      buf.WriteString(content); buf.WriteString("\r\n") *)
+Definition written_content (enc content : str) : str := content ++ crlf.
 
 (** ---- trees and the rows the store derives from them ---- *)
 
